@@ -163,7 +163,7 @@ func init() {
 	reg(&Prop{ID: "C19", Level: "fault_enumeration",
 		Quick:    Tier{Cases: 960, PerJob: 60, Seconds: 70},
 		Thorough: Tier{Cases: 96000, PerJob: 1000, Seconds: 1500},
-		Rule:     "one case = a valid stream (generated index of 0..59 chunks; a casync-made catar fixture or the archive of a generated tree (xattrs, devices, symlinks, hostile names); a sequence of casync protocol messages) fed to one decoder (IndexFromReader, HTTP index handler PUT, FormatDecoder.Next, ArchiveDecoder.Next, Protocol.ReadMessage) through a reader that injects: truncation at EVERY byte (<= 3000 evenly spaced for long streams), EVERY element/message size field set to each of 0, 1, 8, 15, 16, 17, 24, 31..33, 40, 47, 48, 63..65, size-1, size+1, size+24, 2^20, 2^50, 2^63, 2^64-1, 2^64-16 (and 2^28 occasionally), every type field replaced by another element type, 64 random bit flips, fragmented reads, and I/O errors at a tape-chosen read; oracle: no panic, bytes allocated by the call <= 8*len(input)+128 KiB (runtime.MemStats delta), reader errors surface; sub_evaluations = faulted decodes; distinct = distinct tapes; non-trivial = a fault was applied",
+		Rule:     "one case = a valid stream (generated index of 0..59 chunks; a casync-made catar fixture or the archive of a generated tree (xattrs, devices, symlinks, hostile names); a sequence of casync protocol messages) fed to one decoder (IndexFromReader, HTTP index handler PUT, FormatDecoder.Next, ArchiveDecoder.Next, Protocol.ReadMessage) through a reader that injects: truncation at EVERY byte (<= 3000 evenly spaced for long streams), EVERY element/message size field set to each of 0, 1, 8, 15, 16, 17, 24, 31..33, 40, 47, 48, 63..65, size-1, size+1, size+24, 2^20, 2^50, 2^63, 2^64-1, 2^64-16 (and 2^28 occasionally), every type field replaced by another element type, 64 random bit flips, fragmented reads, and I/O errors at a tape-chosen read; oracle: no panic, bytes allocated by the call <= 8*len(input)+128 KiB (runtime.MemStats delta), reader errors surface; sub_evaluations = faulted decodes; distinct = distinct tapes; non-trivial = a fault was applied; 1/12 of the cases write a faulted index or archive (truncation, size field set to a critical value incl. 2^31 and 2^36, type field replaced, bit flip; 8 per case) to a file and run the real `desync list-chunks` / `desync info` (index) or `desync mtree` / `desync untar` (archive) on it with the address space capped at 4 GiB: no panic, no runtime fatal error, exit status 0 or 1",
 		Assumptions: []string{
 			"'all byte strings' is explored only as faulted valid streams (DESIGN.md C19 honest limit)",
 			"size values between 2^31 and 2^47 are not injected: the unpatched decoder would really try to allocate them and take the sandbox down; 2^20/2^28 (really allocated) and >= 2^50 (makeslice panic) bracket that range",
